@@ -162,6 +162,28 @@ OPS["match"] = op_match
 OPS["wmult"] = op_wmult
 
 
+_HARNESS_DIR = os.path.dirname(os.path.abspath(__file__))
+
+
+def _raised_in_harness(e):
+    """True if a binding error (AttributeError / TypeError / ImportError / NameError / KeyError) was raised by harness code
+    itself - i.e. while looking up or calling into pyp0f internals - and not inside pyp0f / Scapy / h11"""
+    if not isinstance(e, (AttributeError, TypeError, ImportError, NameError, KeyError)):
+        return False
+    tb = e.__traceback__
+    files = []
+    while tb is not None:
+        files.append(tb.tb_frame.f_code.co_filename)
+        tb = tb.tb_next
+    if not files:
+        return False
+    in_harness = lambda fn: os.path.abspath(fn).startswith(_HARNESS_DIR)
+    if in_harness(files[-1]):
+        return True                      # lookup / call boundary (wrong arguments) failed in harness code
+    # generated code (dataclass __init__, "<string>") called directly from the harness
+    return files[-1].startswith("<") and len(files) >= 2 and in_harness(files[-2])
+
+
 _HANGS = [0]
 
 
@@ -188,6 +210,10 @@ def answer(line, timeout=4):
     except MemoryError:
         return "EXC MemoryError"
     except Exception as e:  # noqa
+        if _raised_in_harness(e):
+            # an internal function / class the function-level fast path binds to was removed or re-shaped:
+            # the fast path is skipped (counted in the evidence); that alone is never a violation
+            return "SKIP harness-binding " + type(e).__name__
         return exc_cat(e)
     finally:
         signal.setitimer(signal.ITIMER_REAL, 0)
